@@ -56,5 +56,7 @@ BadFromStart(lang) ==
     [] lang = "types" -> << Cp("x"), Cp("Z"), Cp("1"), Cp(",f"), Cp("%"), Cp("F") >>
     [] lang = "perm"  -> << Cp("x"), Cp("9"), Cp("+x"), Cp("=r"), Cp("%"), Cp("rwx"), Cp("'x y'"), Cp("\"9 u+x\"") >>
     \* (the last two: quoted, with a blank inside -- the offending WORD is the whole quoted value)
+    [] lang = "fmt"   -> << Cp("%q"), Cp("'%q is no directive'"), Cp("%e,%p,%s,%u,%g,%m,%t,%a,%c,%i,%n,%b,%k,%U,%G,%y,%f,%h,%P,%H,%S,aaaaaaaaaaaaaaaaaaaa\\n"),
+                         Cp("%{nosuch}"), Cp("%"), Cp("%A") >>
     [] OTHER -> << >>
 =============================================================================
